@@ -740,3 +740,11 @@ def run(ck):
     sub5 = Sub(ck)
     c05.run(sub5)
     ck.floor('R6.6', getattr(sub5, 'n_void', 0), 55, 'shared C05 cells with void on one side')
+
+    # ---- R6.7 define-before-use across scopes: which declaration a name refers to (C01 R1.10, same facts) ----------------------------------------
+    import core as _core67
+    import rules.c01 as c01
+    ck.rule('R6.7', 'a name refers to a declaration whose scope it is in (shared with C01): no read of a local declared in a body that has ended')
+    s1 = _core67.Shared(ck, 'R6.7', lambda r, k: r == 'R1.10', 'C01:', ' [a declaration that outlives its block is read on paths on which it was never assigned]')
+    c01.run(s1)
+    ck.floor('R6.7', s1.count, 4, 'shared C01 R1.10 obligations')
